@@ -139,7 +139,11 @@ func (fr *Frame) call(site ssa.Instruction, c *ssa.CallCommon, st *State, reach 
 		vc.CalleesUsed[ce.name] = "model"
 		return res
 	}
-	// 2. contracts
+	// 2. contracts (a contract may be scoped to the calling function: "name in caller")
+	if k := vc.DB.Funcs[ce.name+" in "+QualName(fr.fn)]; k != nil {
+		vc.CalleesUsed[ce.name] = "contract(" + k.Kind + ", scoped)"
+		return fr.applyContract(site, k, ce, c, st, reach)
+	}
 	if k := vc.DB.Funcs[ce.name]; k != nil && !(k == fr.spec && false) {
 		vc.CalleesUsed[ce.name] = "contract(" + k.Kind + ")"
 		if k.Trusted {
@@ -497,6 +501,10 @@ func (fr *Frame) applyContract(site ssa.Instruction, k *FuncContract, ce callee,
 			}
 		}
 	}
+	if !c.IsInvoke() && ce.dynamic {
+		// the function value being called (for contracts on func types)
+		env.vars["callee"] = cval{t: fr.val(c.Value), sort: "Int"}
+	}
 	// address-typed arguments keep their static location
 	var argVals []ssa.Value
 	if c.IsInvoke() {
@@ -540,6 +548,15 @@ func (fr *Frame) applyContract(site ssa.Instruction, k *FuncContract, ce callee,
 		}
 		vc.oblige("requires", nm, rq.Src, *reach, g, site.Pos(), rq.Claimed)
 	}
+	// results (created first so that modifies items may mention them, e.g. fields(result))
+	sig := c.Signature()
+	var res []string
+	for i := 0; i < sig.Results().Len(); i++ {
+		t := sig.Results().At(i).Type()
+		v := vc.fresh("r."+sym(trimPkg(ce.name)), vc.sortOf(t))
+		res = append(res, v)
+		env.results = append(env.results, cval{t: v, typ: t, sort: vc.sortOf(t)})
+	}
 	// havoc the frame
 	if k.Flags["libframe"] {
 		vc.havocLib(st)
@@ -560,16 +577,10 @@ func (fr *Frame) applyContract(site ssa.Instruction, k *FuncContract, ce callee,
 		vc.havocVar(st, "$alloc")
 	}
 	env.cur = st
-	// results
-	sig := c.Signature()
-	var res []string
 	for i := 0; i < sig.Results().Len(); i++ {
 		t := sig.Results().At(i).Type()
-		v := vc.fresh("r."+sym(trimPkg(ce.name)), vc.sortOf(t))
-		vc.assume(*reach, vc.rangeFact(v, t))
-		vc.assume(*reach, fr.allocFact(st, v, t))
-		res = append(res, v)
-		env.results = append(env.results, cval{t: v, typ: t, sort: vc.sortOf(t)})
+		vc.assume(*reach, vc.rangeFact(res[i], t))
+		vc.assume(*reach, fr.allocFact(st, res[i], t))
 	}
 	env.evalLets(k)
 	for _, gs := range k.GhostSets {
@@ -934,6 +945,9 @@ func (vc *VC) modsOfCall(x ssa.CallInstruction, ms *modSet, depth int, fr *Frame
 		for _, m := range k.Modifies {
 			vs, ok := vc.modVarsOfExpr(m, fn, k, c.Signature())
 			if !ok {
+				if os.Getenv("GOVC_DEBUG_MODS") != "" {
+					fmt.Fprintf(os.Stderr, "mods: cannot evaluate modifies item %s of %s\n", m, name)
+				}
 				ms.all = true
 				return
 			}
